@@ -46,7 +46,8 @@ public:
 
     void finish() {
         for (ndsize_t i = 0; i < nelms; i++) {
-            data[i] = buffer[i];
+            // elements that were never written are returned by HDF5 as NULL pointers
+            data[i] = buffer[i] != nullptr ? buffer[i] : "";
         }
     }
 
